@@ -2,7 +2,7 @@
 import json
 import math
 
-from harness import core, gen_deser as G
+from harness import core, pyrun, gen_deser as G
 from harness.deser_run import Producer, C_MODEL
 from harness.descr import data_real, Other
 
@@ -43,7 +43,7 @@ def run(tier):
 
     def checks(U, c):
         if c.kind == "crash":
-            tag = "recursion" if c.payload == "RecursionError" else "crash"
+            tag = "recursion" if c.payload == "RecursionError" and depth_of(c.data) > 40 else "crash"
             if not R.known_match(f"{tag}:{c.payload}"):
                 R.violation(f"deserialize raised {c.payload} (not ValidationError)", c.to_json())
             return
@@ -60,6 +60,7 @@ def run(tier):
     P.run()
     # mixed-type and non-string keys, deep nesting: implementation only (outside the model's string-keyed dicts)
     extra_probe(R)
+    graph_probe(R, 60 if tier == 'quick' else 400)
     bad_model = P.check("C03_model", C_MODEL)
     if bad_model and not R.violations:
         for c in bad_model[:5]:
@@ -69,8 +70,58 @@ def run(tier):
     return R.finish(
         rule="malformed stream: valid data with 1-3 injected non-JSON objects (tuple, bytes, set, object), NaN / inf, huge "
              "ints, bools, numeric strings; x coerce x additional_properties x fall_back_on_default x no_copy; plus probes "
-             "with non-string / mixed-type keys, str/int/dict/list subclasses and nesting up to depth 300; outcome must be a "
+             "with non-string / mixed-type keys, str/int/dict/list subclasses and nesting up to depth 300; random graphs of 1-6 "
+             "mutually recursive classes (Optional / Optional[List] references) with valid and invalid nested data; outcome must be a "
              "value or ValidationError with JSON-serializable errors, input unchanged")
+
+
+def depth_of(d, n=0):
+    if n > 60:
+        return n
+    if isinstance(d, dict):
+        return max([depth_of(v, n + 1) for v in d.values()] + [n + 1])
+    if isinstance(d, (list, tuple, set, frozenset)):
+        return max([depth_of(v, n + 1) for v in d] + [n + 1])
+    return n
+
+
+def graph_probe(R, n_graphs):
+    """mutually recursive class graphs (any shape of cycles): compiling and running the deserializer terminates"""
+    from harness.props.c20 import gen_graph
+    from apischema import deserialize, ValidationError
+    rng = R.rng
+    for gi in range(n_graphs):
+        g = gen_graph(rng) if gi else [[1, 2], [0, 1], [1]]
+        L = ["from dataclasses import dataclass", "from typing import Optional, List", ""]
+        for i, succ in enumerate(g):
+            L += ["@dataclass", f"class N{i}:", "    x: int = 0"]
+            for j, s2 in enumerate(succ):
+                L.append(f"    f{j}: " + rng.choice(["Optional['N%d'] = None", "'Optional[List[N%d]]' = None"]) % s2)
+            L.append("")
+        src = "\n".join(L)
+        mod = pyrun.exec_module(src)
+
+        def data(k, depth, bad):
+            d = {"x": "bad" if bad and depth == 0 else 1}
+            if depth > 0:
+                for j, s2 in enumerate(g[k]):
+                    if rng.random() < 0.6:
+                        sub = data(s2, depth - 1, bad)
+                        d[f"f{j}"] = [sub] if "List" in str(mod.__dict__[f"N{k}"].__annotations__[f"f{j}"]) else sub
+            return d
+        for root in range(len(g)):
+            for bad in (False, True):
+                d = data(root, 3, bad)
+                R.count("graph_probe")
+                try:
+                    deserialize(mod.__dict__[f"N{root}"], d)
+                except ValidationError as e:
+                    if not bad:
+                        R.violation(f"valid data rejected for the recursive class N{root}: {e.errors}", dict(source=src, data=d, root=root))
+                except Exception as e:
+                    R.violation(f"deserialize(N{root}, ...) raised {type(e).__name__} on recursive classes (graph {g})",
+                                dict(source=src, data=d, root=root))
+        pyrun.drop_module(mod)
 
 
 def extra_probe(R):
